@@ -48,6 +48,8 @@ def make(cx, mido, kind, tag, delta):
     if kind in TEXT_TYPES:
         text = TEXT_MENU[cx.choice(tag + 'text', len(TEXT_MENU))] if not getattr(cx, 'one_text', False) else TEXT_MENU[1]
         return mido.MetaMessage(kind, time=delta, **{TEXT_TYPES[kind][1]: text})
+    if kind == 'sequencer_specific_default':
+        return mido.MetaMessage('sequencer_specific', time=delta)
     if kind == 'sequencer_specific':
         return mido.MetaMessage(kind, time=delta, data=tuple(cx.int('%sd%d' % (tag, i), 0, 255) for i in range(2)))
     if kind in ('unknown_meta', 'unknown_meta0'):
